@@ -136,3 +136,13 @@ Example C01_unfaulted_encrypt_nonvacuous :
   (new_key_timestamp (w_now (h_world h)) (p_precision Rotation.pol100) =? 0) = false /\
   match fst (fst (hstep h (HEncrypt 3 9 []))) with OEnc _ _ => True | _ => False end.
 Proof. exact unfaulted_encrypt_nonvacuous. Qed.
+
+Theorem C01_unfaulted_encrypt_succeeds_with_session_closes : forall svc prod t0 ops s x fa payload,
+  Forall (benignC svc prod) ops ->
+  let h := snd (hrun (hinit t0) ops) in
+  let w := h_world h in
+  nth_error (w_sessions w) s = Some x -> nth_error (w_factories w) (ss_factory x) = Some fa ->
+  nz_store (w_store w) -> new_key_timestamp (w_now w) (p_precision (fa_policy fa)) <> 0 ->
+  exists pm c, fst (fst (hstep h (HEncrypt s payload []))) = OEnc pm c.
+Proof. exact unfaulted_encrypt_succeeds_closing. Qed.
+Print Assumptions C01_unfaulted_encrypt_succeeds_with_session_closes.
